@@ -25,7 +25,7 @@ func flags(fs *flag.FlagSet) (cfg *Config, srcs, provs *string, unitMs *int) {
 	return
 }
 
-// replayOne runs one behaviour; returns the driver (for its outcome) after at most 3 attempts when timing was disturbed.
+// replayOne runs one behaviour; returns the driver (for its outcome) after at most 5 attempts when timing was disturbed.
 func replayOne(cfg Config, b *behaviour) *Driver {
 	var d *Driver
 	timed := hasTick(b)
@@ -35,8 +35,12 @@ func replayOne(cfg Config, b *behaviour) *Driver {
 	for _, st := range b.Steps {
 		cfg.Auto = cfg.Auto || st.Au != 0
 	}
-	for attempt := 0; attempt < 3; attempt++ {
+	unit := cfg.Unit
+	for attempt := 0; attempt < 5; attempt++ {
 		var err error
+		// a disturbed run is repeated with a longer clock unit each time: the model's time is relative, a coarser
+		// unit only makes the run slower and more tolerant of scheduling jitter
+		cfg.Unit = unit << uint(attempt)
 		d, err = NewDriver(cfg)
 		if err != nil {
 			d = &Driver{Inconclusive: "cannot create cache: " + err.Error()}
